@@ -126,6 +126,16 @@ def run(tier, seed):
             if n % 4000 == 5:
                 run.sample({"xml": r.get("xml"), "cfg": case["cfg"], "expected_shapes": [[o[0], o[2]] for o in case["out"]]})
             n += 1
+        # beyond the exhaustive bound: random behaviours of the same machine, documents of 6 and 10 tokens
+        num = 3 if tier == "quick" else 150
+        sres, vals = engine.simulate_cases(work, "MC_C03", {"MaxTok": 10, "Full": "TRUE"}, num=num, depth=12, seed=seed + 1)
+        run.add_tlc(sres, "DocCore documents by TLC -simulate: %d behaviours of 10 tokens, every one-step extension emitted" % sres["behaviours"])
+        sim = [{"doc": v[1], "cfg": v[2], "out": v[3], "n": i, "seed": seed} for i, v in enumerate(vals)]
+        for case, r in engine.replay("harness.c03", sim, chunk=50):
+            run.record(case, r, key=r.get("xml", str(case["doc"])) + str(case["cfg"]))
+            if case["n"] == 7:
+                run.sample({"simulated": True, "xml": r.get("xml"), "cfg": case["cfg"], "expected_shapes": [[o[0], o[2]] for o in case["out"]]})
+        run.extra["simulated_documents"] = len(sim)
     finally:
         engine.cleanup(work)
     run.rule = ("cases = states of MC_C03: every token prefix (root variant + <= MaxTok-1 tokens from the alphabet of containers, shapes, use and end) closed "
